@@ -69,12 +69,14 @@ def plan(tier, seed):
         specs += [dict(seed=seed, shard="control-%d" % i, kind="control", n=20) for i in range(4)]
         specs += [dict(seed=seed, shard="rerun-%d" % i, kind="rerun", n=30) for i in range(4)]
         specs += [dict(seed=seed, shard="pending-%d" % i, kind="pending", n=10) for i in range(4)]
+        specs += [dict(seed=seed, shard="known", kind="known", n=2)]
     else:
         specs = [dict(seed=seed, shard="product-%d" % i, kind="product", part=i, parts=8, stride=9, repeat=1, n=1) for i in range(8)]
         specs += [dict(seed=seed, shard="random-%d" % i, kind="random", n=8) for i in range(6)]
         specs += [dict(seed=seed, shard="control-0", kind="control", n=6)]
         specs += [dict(seed=seed, shard="rerun-%d" % i, kind="rerun", n=6) for i in range(2)]
         specs += [dict(seed=seed, shard="pending-%d" % i, kind="pending", n=2) for i in range(3)]
+        specs += [dict(seed=seed, shard="known", kind="known", n=1)]
     del total
     return specs
 
@@ -165,6 +167,10 @@ def gen_random_case(rnd, spec):
         if rnd.random() < 0.75:  # mostly the kinds with the strong clause
             how, what, cls = rnd.choice([k for k in failure_kinds(flavour) if k[2] == "exception"])
         reg = rnd.choice([r for r in REGISTRATIONS if not (meta_mode and r.startswith("service"))])
+        if reg == "from_asyncio" and flavour == "trio" and "cross" in gen.get("tags", []):
+            # no submission into trio from the asyncio thread while trio payloads may be blocked in execute(flavour=asyncio):
+            # the two loops then wait for each other (the recorded finding C03/adopt-trio-blocks-on-busy-trio-thread, judged there)
+            reg = "from_thread"
         place(gen, script, failing_payload("f%d" % i, flavour, how, what, delayed), reg, rnd)
         fails.append([flavour, how, what, cls, reg, delayed])
     script.append(["expect_end", PATIENCE])
@@ -188,6 +194,19 @@ def gen_rerun_case(rnd, spec):
         del first["mode"], second["mode"]
     return {"watchdog": 30, "inject": common.inject_conf(rnd, 0.5), "generations": [first, second],
             "meta": {"kind": "rerun", "fail": [[flavour, how, what, cls, "queued", False]], "judge_gen": 1}}
+
+
+def gen_known_case(rnd, spec):
+    """The recorded finding C01/systemexit-beside-stubborn-asyncio-payload, exercised on every run."""
+    flavour = rnd.choice(["threading", "asyncio"])
+    # an ordinary failure starts the closing of the runners; the stubborn payload keeps that going for 0.4 s; the SystemExit falls into it
+    gen = {"accept_delay": 0.03, "services": [], "grace": 0.2,
+           "payloads": [{"id": "b0", "flavour": "asyncio", "when": "queued", "program": [["beat", 0.01, None]], "cleanup": {"kind": "absorb", "times": 3}},
+                        {"id": "f0", "flavour": "asyncio", "when": "queued", "program": [["sleep", 0.04], ["return", "zero"]], "cleanup": {"kind": "none"}},
+                        {"id": "f1", "flavour": flavour, "when": "queued", "program": [["sleep", 0.15], ["raise", "SystemExit"]], "cleanup": {"kind": "none"}}],
+           "script": [["wait_running", 8], ["expect_end", PATIENCE]]}
+    return {"watchdog": 25, "inject": None, "generations": [gen],
+            "meta": {"kind": "known", "fail": [["asyncio", "return", "zero", "exception", "queued", True], [flavour, "raise", "SystemExit", "base", "queued", True]], "meta_runner": False}}
 
 
 def gen_control_case(rnd, spec):
@@ -266,7 +285,15 @@ def judge(case, run, result):
         result.count("reruns_of_the_same_runner")
     if run.of("accept-still-running", gen=g) or ended is None:
         who = ["%s %s(%s) via %s" % (specs[e["pid"].replace("svc:", "")][0], e["how"], e["what"], specs[e["pid"].replace("svc:", "")][4]) for e in fails]
-        problems.append(("payload failed (%s) but accept kept running for %.0f s" % ("; ".join(who), PATIENCE), None))
+        mech = None
+        payloads = case["generations"][g]["payloads"]
+        loop_fatal = [e for e in fails if str(e.get("what", "")).startswith("SystemExit") and specs[e["pid"].replace("svc:", "")][0] != "trio"]
+        stubborn = [p["id"] for p in payloads if p["flavour"] == "asyncio" and p["cleanup"].get("kind") == "absorb" and run.of("start", gen=g, pid=p["id"])]
+        if loop_fatal and stubborn and "_cancel_all_tasks" in (run.stacks or ""):
+            # SystemExit is re-raised out of the event loop, the runners are never closed, and asyncio.run's own finalisation
+            # cancels every remaining task exactly once: a payload that only ends on its second cancellation waits forever
+            mech = "C01/systemexit-beside-stubborn-asyncio-payload"
+        problems.append(("payload failed (%s) but accept kept running for %.0f s%s" % ("; ".join(who), PATIENCE, (" beside asyncio payload(s) %s that end on their second cancellation" % stubborn) if mech else ""), mech))
         return problems
     if ended["seq"] < first:
         result.count("accept_ended_before_failure")
@@ -314,7 +341,7 @@ def run_shard(spec):
         gen = lambda i, rep: gen_product_case(core.rng(PID, spec["seed"], "product", i, rep), items[i])  # noqa: E731
     else:
         todo = [(i, 0) for i in range(spec["n"])]
-        g = {"random": gen_random_case, "control": gen_control_case, "rerun": gen_rerun_case, "pending": gen_pending_case}[spec["kind"]]
+        g = {"random": gen_random_case, "control": gen_control_case, "rerun": gen_rerun_case, "pending": gen_pending_case, "known": gen_known_case}[spec["kind"]]
         gen = lambda i, rep: g(core.rng(PID, spec["seed"], spec["shard"], i), spec)  # noqa: E731
     for i, rep in todo:
         cid = i * 10 + rep
